@@ -507,4 +507,20 @@ func TestC16(t *testing.T) {
 		}
 	}
 	e4.done(true)
+	// long blocks (2^14 lines and more, about a million residues): one damaged byte in the last lines, in the first
+	// line and in the middle - the sizes at which a reader may switch to checking a block in pieces
+	e4b := enumPart(t, c16Prop, st, "mutated-long-blocks")
+	for _, lines := range []int{1 << 14, 1<<14 + 1, 1<<14 + 3, 1<<14 + 7, pick(1<<14+13, 1<<15+5)} {
+		n := 60*(lines-1) + 37
+		blockLen := len(refOrigin(make([]byte, n)))
+		for _, back := range []int{2, 5, 13, 30, 48, 52, 90, 130, 200, 270, 400, 480, blockLen / 2, blockLen - 15} {
+			for _, m := range []c16Case{{Op: "set", Byte: ' '}, {Op: "del"}, {Op: "set", Byte: '\t'}} {
+				m.Mode, m.Len, m.Alpha, m.Pos = "mutate", n, "acgt", blockLen-back
+				if !e4b.try(m) {
+					return
+				}
+			}
+		}
+	}
+	e4b.done(false)
 }
